@@ -32,11 +32,13 @@ structure RetPost (K : Ctx) (σ' : S) (t : State) : Prop where
   matrix : σ'.vm.matrix = t.matrix
   draws : σ'.vm.draws = t.draws
   regs : ∀ r, r ≠ .result → σ'.vm.regs r = t.regs r
+  /-- the value returned is in `result` -/
+  result : t.regs .result = σ'.result
 
 /-- the `RETURN` instruction, at any loop depth of a routine -/
 theorem exec_ret {stk : Stk} {σ : S} {s : State} {pc : Nat} (h : Sim K stk σ s)
     (hpc : s.pc = (pc : Int)) (hi : img.code[pc]? = some .ret) (ret : Nat) (rest : List Frame)
-    (evc : List Val) (hK : K.ret = some (ret, rest, evc)) (x : Val) :
+    (evc : List Val) (hK : K.ret = some (ret, rest, evc)) (x : Val) (hx : s.regs .result = x) :
     Exec img s (RetPost K { σ with result := x }) := by
   have hloc := h.locals.1
   rw [hK] at hloc
@@ -59,7 +61,7 @@ theorem exec_ret {stk : Stk} {σ : S} {s : State} {pc : Nat} (h : Sim K stk σ s
     rw [step_eq _ { s with stack := rest, pc := (ret : Int), eval := K.base } h.running hpc hi rfl
       (by simp only [execInstr]; exact hret') h.running]
     exact ⟨⟨ret, rest, evc, hK, by simp, rfl⟩, h.running, rfl, h.unnamed, h.locals.2, h.status, h.umode,
-      h.globals, h.constants, h.lights, h.trace, h.defaultColor, h.matrix, h.draws, h.regs⟩
+      h.globals, h.constants, h.lights, h.trace, h.defaultColor, h.matrix, h.draws, h.regs, hx⟩
 
 def StmtRet (img : Image) (K : Ctx) (st : Stmt) (f : Nat) : Prop :=
   ∀ (σ σ' : S) (s : State) (pc exit : Nat) (stk : Stk),
@@ -84,7 +86,7 @@ theorem stmt_ret (f : Nat) (v : Option Rv) (hv : match v with | some rv => RvOK 
       show s.pc + 1 = _
       rw [hpc]; omega
     rw [e]
-    exact exec_ret hsim rfl hc.tail.head ret rest evc hK .none
+    exact exec_ret hsim rfl hc.tail.head ret rest evc hK .none (by simp [State.setReg])
   | some rv =>
     have hv : RvOK rv := hv
     simp only [execStmt] at h
@@ -93,8 +95,8 @@ theorem stmt_ret (f : Nat) (v : Option Rv) (hv : match v with | some rv => RvOK 
       simp only [Prod.mk.injEq, true_and] at h
       subst h
       obtain ⟨rfl, hex⟩ := exec_toResult rv hv sim hpc hc.left hev
-      refine hex.trans fun t ⟨ht, _⟩ => ?_
-      exact exec_ret ht.2 ht.1 hc.right.head ret rest evc hK x
+      refine hex.trans fun t ⟨ht, hres⟩ => ?_
+      exact exec_ret ht.2 ht.1 hc.right.head ret rest evc hK x hres
     · rename_i o' hev
       simp only [Prod.mk.injEq] at h
       have := evalRv_error hv f σ _ hev
@@ -865,12 +867,57 @@ theorem bindRead_eq {stk : Stk} {un : List Val} {σ : S} {s : State} (h : SimU K
 
 /-! ## calls -/
 
+/-- a routine that delivers a value on every path that reaches its end: its last statement is a
+`return` (a `return` anywhere else ends it earlier) -/
+def EndsRet : Block → Prop
+  | .nil => False
+  | .cons (.ret _) .nil => True
+  | .cons _ rest => EndsRet rest
+
+/-- a routine whose last statement is `return` never runs off its end -/
+theorem EndsRet.not_normal : ∀ (f : Nat) (b : Block), EndsRet b → ∀ (s s' : S), execBlock f b s ≠ (.normal, s') := by
+  intro f
+  induction f with
+  | zero => intro b _ s s' he; simp [execBlock] at he
+  | succ f ih =>
+    intro b h s s' he
+    cases b with
+    | nil => exact absurd h (by simp [EndsRet])
+    | cons st rest =>
+      simp only [execBlock] at he
+      cases rest with
+      | nil =>
+        cases st with
+        | ret v =>
+          cases f with
+          | zero => simp [execStmt] at he
+          | succ f =>
+            cases v with
+            | none => simp [execStmt] at he
+            | some rv =>
+              simp only [execStmt] at he
+              cases hev : evalRv f rv s with
+              | ok p => rw [hev] at he; simp at he
+              | error o =>
+                rw [hev] at he
+                have := ((eval_error_ctl f).2.1 rv s o hev).1
+                cases o <;> simp_all
+        | _ => simp [EndsRet] at h
+      | cons st2 rest2 =>
+        have h' : EndsRet (.cons st2 rest2) := by
+          cases st <;> simpa [EndsRet] using h
+        split at he
+        · exact ih _ h' _ s' he
+        · rename_i hne
+          exact hne _ he
+
 /-- the routines of the script are compiled from bodies of the fragment and sit where the image's
-routine table says, each followed by its `END`; other names are not in the table -/
+routine table says, each followed by its `END`; other names are not in the table; the routines
+that may be called for their value (`V`) end with a `return` -/
 def RoutinesAt (V : String → Prop) (img : Image) (R : List (String × Sem.Routine)) : Prop :=
   ∀ name, match R.find? (·.1 == name) with
     | some (_, rt) =>
-      FragBlock V rt.body ∧ ∃ addr nm, img.routine? name = some addr ∧
+      FragBlock V rt.body ∧ (V name → EndsRet rt.body) ∧ ∃ addr nm, img.routine? name = some addr ∧
         CodeAt img addr (resolve (genBlock rt.body) addr (0 : Nat) ++ [.end_ nm])
     | none => img.routine? name = none
 
@@ -1129,7 +1176,7 @@ theorem stmt_call (f : Nat) (ihB : ∀ r st, BlockGoal V img ⟨some (r, st), K.
       split at hcall
       · rename_i n' rt hfind
         rw [hfind] at hRg
-        obtain ⟨hfrag, addr, nm, haddr, hbody⟩ := hRg
+        obtain ⟨hfrag, _, addr, nm, haddr, hbody⟩ := hRg
         split at hcall
         · rename_i s2 hex
           simp only [Except.ok.injEq, Prod.mk.injEq] at hcall
